@@ -25,8 +25,8 @@ pub struct Gen {
     pub wb: bool,
     pub nodes: Vec<NodeInfo>,
     pub handles: Vec<HandleInfo>,
-    /// C18 flavour that avoids the one request class the sealed server refuses by closing the
-    /// handle's descriptor (a non-append WRITE reaching beyond the size), so that histories get past it
+    /// C18 flavour that keeps non-append WRITEs within the current size (more requests succeed on a
+    /// sealed export); the other flavour also sends them beyond the size
     pub gentle: bool,
 }
 
@@ -82,8 +82,7 @@ impl Gen {
         }
     }
     fn ids(&mut self) -> (u32, u32) {
-        // gentle flavour: stay off the request class of a known finding (non-root callers) so that histories get past it
-        if !self.gentle && self.mode != "c18" && self.rng.chance(1, 3) {
+        if self.mode != "c18" && self.rng.chance(1, 3) {
             (1000, 1000)
         } else {
             (0, 0)
